@@ -501,6 +501,7 @@ class DnsRecordTxt(ParsableBase):
     def compose(self):
         composer = ComposerBinary()
 
-        composer.compose_string(self.value, 'ascii', 1)
+        for offset in range(0, max(len(self.value), 1), 255):
+            composer.compose_string(self.value[offset:offset + 255], 'ascii', 1)
 
         return composer.composed_bytes
